@@ -90,6 +90,11 @@ CHECKS = {
                      'arbitrary start delay, shutdown() is a join; queue constants come from running the real piter_fn/piter_multiplex wiring. z3 decides over all interleavings, '
                      'symbolic early-stop and failure positions: shutdown always returns (no helper thread left blocked), outputs are the sequential multiset / exactly k on early '
                      'stop / the input error reaches the caller. Quick: parallelism 1; thorough: parallelism 2, shared and independent inputs.'),
+    'C15': dict(engine='pybmc', level='model_checking', design_ref='DESIGN.md#c15', note=BM_NOTE, technique=BM_TECH,
+                text='PrefetchedCourierServer._next_batch/_stop_prefetch are compiled from source on top of the IteratorQueue encoding, with the prefetch thread, a client thread that '
+                     'interprets the batch markers like courier_utils.async_iterate and (thorough) a shutdown thread. z3 decides over all interleavings and a symbolic generator failure '
+                     'position: no request stays blocked; the concatenated batches are the generator elements in order, each once, then exactly one end marker with the return value; a '
+                     'failure arrives after the elements produced before it (known finding: partial batch dropped). One generator life-cycle; re-initialisation is outside.'),
 }
 NA = {}
 PENDING = 'check not built yet (see DESIGN.md build order)'
